@@ -272,7 +272,7 @@ func childQueries(c *core.Ctx) childResult {
 			if err != nil {
 				cq.Err = err.Error()
 			}
-		case <-time.After(90 * time.Second):
+		case <-time.After(300 * time.Second):
 			cq.TimedOut = true
 			buf := make([]byte, 4<<20)
 			n := runtime.Stack(buf, true)
@@ -329,7 +329,7 @@ func (d *driver) inprocLeg(only string) {
 		procs = []int{1, 2, 4, 16}
 	}
 	rng := c.Rng("inproc")
-	seedsPer := c.Pick(1, 3)
+	seedsPer := c.Pick(1, 2)
 	for _, leg := range []string{"functions", "queries"} {
 		for _, p := range procs {
 			for s := 0; s < seedsPer; s++ {
@@ -387,7 +387,7 @@ func (d *driver) inprocLeg(only string) {
 			Args:    []string{"-prop", "C29", "-tier", c.Tier, "-seed", strconv.FormatInt(ic.Seed, 10), "-root", c.Root, "-only", "child"},
 			Env:     env,
 			Dir:     dir,
-			Timeout: 2 * watchdog(),
+			Timeout: 8 * watchdog(),
 		})
 		rs := res{ic: ic, r: r, tr: readTrace(tracePath)}
 		if data, err := os.ReadFile(outPath); err == nil && json.Unmarshal(data, &rs.cr) == nil {
@@ -435,7 +435,7 @@ func (d *driver) inprocLeg(only string) {
 					c.Count("inproc/dump/"+v.Verdict, 1)
 					rp := map[string]interface{}{"id": ic.ID, "sql": q.SQL, "dump_classification": v, "dump": tail(q.Dump, 60000)}
 					if v.Verdict == "deadlock" {
-						c.Violation(v.Key, "in-process query did not finish within 90 s and every goroutine that is not idle by design is parked: "+strings.Join(v.Parked, "; "), rp)
+						c.Violation(v.Key, "in-process query did not finish within 300 s and every goroutine that is not idle by design is parked: "+strings.Join(v.Parked, "; "), rp)
 					} else {
 						c.Inconclusive("inproc:watchdog:" + v.Verdict)
 					}
